@@ -8,7 +8,7 @@ object with every single-field mutation of the deep copy.
 """
 from __future__ import annotations
 import copy as _copy
-import itertools, os, pathlib, shutil, tempfile, traceback
+import atexit, itertools, os, pathlib, shutil, tempfile, traceback
 
 import numpy
 
@@ -46,6 +46,8 @@ GROUPS = [None, "g", "g/h/", "a/b"]      # structure; the spelling of the last o
 
 def group_names(seed):
     return [None, "g", "g/h/", ["a/b", "ä–x/β", "grp 1/sub.2"][seed % 3]]
+
+
 GROUP_META = ("taxa_grp_name", "taxa_grp_stix", "taxa_grp_spix", "taxa_grp_len",
               "vrnt_chrgrp_name", "vrnt_chrgrp_stix", "vrnt_chrgrp_spix", "vrnt_chrgrp_len")
 
@@ -110,9 +112,15 @@ def _all_shards(tier, seed):
     for i in range(0, len(cl), step):
         out.append(("copy", cl[i:i + step]))
     out += _vcf_shards(tier)
-    # longest first so that the pool drains evenly
+    # longest first so that the pool drains evenly (cost of an HDF5 history ~ number of datasets per object)
     order = {"hdf5": 0, "vcf": 1, "table": 2, "copy": 3}
-    out.sort(key=lambda s: order[s[0]])
+
+    def cost(sp):
+        if sp[0] != "hdf5":
+            return 0
+        c = P.CLASSES[sp[1]]
+        return -(30 if c["kind"] == "gmod" else len(c["opt"]) + 2) * (1 if sp[2] in (None, "d3", "d4") else 0.1)
+    out.sort(key=lambda sp: (order[sp[0]], cost(sp)))
     return out
 
 
@@ -129,6 +137,7 @@ class Scratch:
 
     def __init__(self):
         self.dir = tempfile.mkdtemp(prefix="c16_", dir=_scratch_base())
+        atexit.register(self.close)
 
     def path(self, name):
         return os.path.join(self.dir, name)
